@@ -155,7 +155,16 @@ def sample(ctx, budget=1.0, hint=None, broken=None):
         if len(fails) < 12:
             fails.append(Failure(signature=sig, what=what, input=inp, observed=obs, expected=exp, repro=repro))
 
-    from .c19 import _rand_pts
+    from .c19 import _rand_pts as _rand_pts0
+
+    def _rand_pts(r, k):
+        # 20%: a curve of ordinary size placed far from the origin (coordinates 1e4..1e7 times its size): shape-relative and
+        # position-relative magnitudes differ, which is where "is this coefficient negligible" shortcuts go wrong
+        ps, scale = _rand_pts0(r, k)
+        if r.random() < 0.2:
+            off = complex(r.choice([-1, 1, 1, 0]) * 10.0 ** r.randint(4, 7), r.choice([-1, 1, 1]) * 10.0 ** r.randint(4, 7)) * max(scale, 1e-3)
+            ps = [p + off for p in ps]
+        return ps, scale
     for it in range(int(ctx.n(300, 4000) * budget)):
         kind, k = r.choice(KINDS)
         ps, scale = _rand_pts(r, k)
@@ -196,9 +205,14 @@ def sample(ctx, budget=1.0, hint=None, broken=None):
         if not (_close(pts[0], ex, tolp) and _close(pts[1], ex2, tolp)):
             fail('%s.points' % kind, 'points([t,..]) differs from the curve', {'seg': ctor, 't': [t, t2]}, repr(list(pts)),
                  repr([complex(*map(float, ex)), complex(*map(float, ex2))]), 'list(svgpathtools.%s.points([%r, %r]))' % (ctor, t, t2))
-        back = P.poly2bez(seg.poly(), return_bpoints=True)
-        seg2 = P.poly2bez(seg.poly())
-        seg3 = P.bpoints2bezier(list(ps))
+        try:
+            back = P.poly2bez(seg.poly(), return_bpoints=True)
+            seg2 = P.poly2bez(seg.poly())
+            seg3 = P.bpoints2bezier(list(ps))
+        except Exception as e:
+            fail('poly2bez/%s/raises' % kind, 'poly2bez(seg.poly()) / bpoints2bezier raises %s' % type(e).__name__, {'seg': ctor}, repr(e)[:200], repr(tuple(ps)),
+                 'svgpathtools.poly2bez(svgpathtools.%s.poly())' % ctor)
+            continue
         for nm, b in (('poly2bez', back), ('poly2bez-seg', seg2.bpoints() if hasattr(seg2, 'bpoints') else ()),
                       ('bpoints2bezier', seg3.bpoints() if hasattr(seg3, 'bpoints') else ())):
             if len(b) != k:
@@ -296,7 +310,7 @@ def sample(ctx, budget=1.0, hint=None, broken=None):
                      repr(complex(*map(float, _bern_exact_c(cur, 0.37)))), '')
                 break
     return {'evaluations': n_eval, 'distinct_nontrivial': len(nontriv), 'failures': fails, 'samples': samples,
-            'rule': 'random Line/Quadratic/Cubic (scales 1e-3..1e6; coincident, collinear, integer classes), t in and slightly outside [0,1], '
+            'rule': 'random Line/Quadratic/Cubic (scales 1e-3..1e6; coincident, collinear, integer classes; 20% placed 1e4..1e7 sizes away from the origin), t in and slightly outside [0,1], '
                     'n = 1..5; plus mutate-then-query sequences and copies derived (reversed/cropped/split/translated/rotated/scaled) after the original was measured/evaluated. distinct = distinct (kind, scale, endpoint?) / (mutate, kind, field)'}
 
 
